@@ -38,8 +38,32 @@ def make_walker(root, fn, strict=True):
                     matchbase='MATCHBASE' in fn, strict_links=strict, maxdepth=8)
 
 
+def through_link_pattern(rng, tr):
+    """Two non-adjacent recursive segments aimed at a path that goes through a symlinked directory: the link falls into
+    the first `**`, a written segment follows, then a second `**` (optionally a written last component)."""
+    root = tr.root
+    cands = []
+    for c in tr.candidates(5):
+        parts = c.split('/')
+        pos = symlink_positions(root, c)
+        if pos and len(parts) >= min(pos) + 3:
+            cands.append((parts, min(pos)))
+    if not cands:
+        return None
+    parts, i = rng.choice(cands)
+    k = rng.randint(i + 1, len(parts) - 2)
+    segs = [(('gstar',),), tuple(('lit', ch) for ch in parts[k]), (('gstar',),)]
+    if rng.random() < 0.5:
+        segs.append(tuple(('lit', ch) for ch in parts[-1]) if rng.random() < 0.6 else (('star',),))
+    return gen.join_segments(segs, None, lead=False, trail=False)
+
+
 def link_pattern(rng, tr):
     """Patterns with recursive segments in first / middle / last position and next to literal link names."""
+    if rng.random() < 0.3:
+        t = through_link_pattern(rng, tr)
+        if t:
+            return t
     ents = tr.lexical()
     links = [p for p, e in tr.snap.items() if e['link']]
     base = (rng.choice(links) if links and rng.random() < 0.6 else (rng.choice(ents) if ents else 'a')).split('/')
@@ -156,7 +180,9 @@ def check_glob(ctx, tr, rng, k, j, mon):
     segs_ = R.split_segments(toks)[1]
     nullable_seg = any(R.nullable(R.norm_seg(sg)) for sg in segs_ if not R.seg_is_gstar(sg, R.PathSpec(globstar=True, globstarlong=True)))
     if not following and not nullable_seg:
-        cands = [c for c in tr.candidates(4) if symlink_positions(root, c)][:25]
+        cands = [c for c in tr.candidates(5) if symlink_positions(root, c)]
+        rng.shuffle(cands)
+        cands = cands[:30]
         allowed_must = {T.norm_result(p) for p, v in exp.items() if v is True}
         allowed = {T.norm_result(p) for p in exp}
         wloose = make_walker(root, fn, strict=False)
@@ -233,7 +259,7 @@ def run(ctx):
     while k < limit and not ctx.out_of_time():
         k += 1
         rng = ctx.rng_for('t', ctx.shard, k)
-        spec = T.gen_spec(rng, max_entries=14, p_link=0.42, link_kinds=LINKS)
+        spec = T.gen_spec(rng, max_entries=16, maxdepth=4, p_link=0.4, link_kinds=LINKS)
         with T.Tree(spec, 'c06-') as tr:
             if tr.has_dir_cycle():
                 ctx.count('cyclic_trees')
